@@ -47,12 +47,14 @@ EXTENDS Integers, Sequences, FiniteSets, TLC, Json
 CONSTANTS K,                \* content ids are 1..K
           Editable,         \* files that Edit may rewrite
           Addable,          \* files that are absent initially and may be added
-          OptNames,         \* option sets in play, subset of {"O1","O2","O3","O4"}
+          OptNames,         \* option sets in play, subset of {"O1",...,"O6"}
           Modes,            \* subset of {"cache","codegen"}
           Versions,         \* pymoca versions
           Holds,            \* may the caller keep a returned codegen model alive: subset of BOOLEAN
           MaxClock,         \* bound on the logical clock (= number of edits/additions)
           LibFoldersInKey, FreshLibHandles,
+          OptionValuesCompared,   \* TRUE (the code): option VALUES are compared.  FALSE = regression: only whether an
+                                  \* option is switched on (truthiness) - must violate ResultIsFresh for O5/O6
           Beyond            \* histories OUTSIDE the property's premise, subset of {"backdated", "split"} ({} for C20 itself)
 
 VARIABLES files, cachef, libs, held, opts, ver, clock, last,
@@ -62,10 +64,14 @@ vars == <<files, cachef, libs, held, opts, ver, clock, last, pending>>
 Files == {"M", "S", "L1", "A", "L2"}
 FolderOf == [M |-> "model", S |-> "model/sub", L1 |-> "lib1", A |-> "lib1", L2 |-> "lib2"]
 
-OptOf(n) == CASE n = "O1" -> [simp |-> FALSE, ev |-> FALSE, lib |-> "lib1"]
-              [] n = "O2" -> [simp |-> TRUE,  ev |-> FALSE, lib |-> "lib1"]   \* a simplification option differs
-              [] n = "O3" -> [simp |-> FALSE, ev |-> TRUE,  lib |-> "lib1"]   \* expand_vectors differs
-              [] n = "O4" -> [simp |-> FALSE, ev |-> FALSE, lib |-> "lib2"]   \* only library_folders differs
+(* eve = value of the NON-boolean option eliminable_variable_expression: "none" (None), "a" (r"_a\w*"), "b" (r"_b\w*");
+   O5 and O6 differ only in the VALUE of that option (both truthy) *)
+OptOf(n) == CASE n = "O1" -> [simp |-> FALSE, ev |-> FALSE, lib |-> "lib1", eve |-> "none"]
+              [] n = "O2" -> [simp |-> TRUE,  ev |-> FALSE, lib |-> "lib1", eve |-> "none"]   \* a simplification option differs
+              [] n = "O3" -> [simp |-> FALSE, ev |-> TRUE,  lib |-> "lib1", eve |-> "none"]   \* expand_vectors differs
+              [] n = "O4" -> [simp |-> FALSE, ev |-> FALSE, lib |-> "lib2", eve |-> "none"]   \* only library_folders differs
+              [] n = "O5" -> [simp |-> FALSE, ev |-> FALSE, lib |-> "lib1", eve |-> "a"]
+              [] n = "O6" -> [simp |-> FALSE, ev |-> FALSE, lib |-> "lib1", eve |-> "b"]
 
 (* os.walk over [model_folder] + library_folders: which files a call with options o sees *)
 Visible(f, o) == FolderOf[f] \in {"model", "model/sub"} \/ FolderOf[f] = o.lib
@@ -74,7 +80,7 @@ Present(f) == files[f].c # 0
 Src(o) == [f \in Files |-> IF Visible(f, o) THEN files[f].c ELSE 0]
 (* _compile_model: the result also depends on WHICH pymoca compiles (that is why the version is checked);
    the harness makes the compiling version visible in the model *)
-Compile(o) == [src |-> Src(o), simp |-> o.simp, ev |-> o.ev, by |-> ver]
+Compile(o) == [src |-> Src(o), simp |-> o.simp, ev |-> o.ev, eve |-> o.eve, by |-> ver]
 
 -----------------------------------------------------------------------------
 Init == /\ files = [f \in Files |-> [c |-> IF f \in Addable \/ f \in {"A", "S"} THEN 0 ELSE 1, mt |-> 0]]
@@ -128,6 +134,7 @@ MtimeCheck(o) ==                                            \* api.py:309-317, "
     \A f \in Files : (Visible(f, o) /\ Present(f)) => files[f].mt <= C.mt
 VersionCheck == C.ver = ver                                 \* api.py:332
 Key(o, mode) == [simp |-> o.simp, ev |-> o.ev, mode |-> mode,
+                 eve |-> IF OptionValuesCompared THEN o.eve ELSE (IF o.eve = "none" THEN "off" ELSE "on"),
                  lib |-> IF LibFoldersInKey THEN o.lib ELSE "-"]
 OptionsCheck(o, mode) == Key(C.o, C.mode) = Key(o, mode)    \* api.py:335-343
 Hit(o, mode) == cachef # <<>> /\ MtimeCheck(o) /\ VersionCheck /\ OptionsCheck(o, mode)
@@ -144,6 +151,7 @@ Transfer(mode, hold) ==
         ret   == IF hit THEN [vars |-> C.model, funs |-> LoadFuns]
                         ELSE [vars |-> fresh, funs |-> fresh]          \* a miss returns the freshly compiled Model
         dev   == (IF hit /\ C.o.lib # o.lib THEN {"libs-not-in-key"} ELSE {})
+                 \cup (IF hit /\ C.o.eve # o.eve THEN {"option-value-not-compared"} ELSE {})
                  \cup (IF hit /\ mode = "codegen" /\ ret.funs # libs[1] THEN {"held-lib-handle"} ELSE {})
     IN  /\ mode \in Modes
         /\ hold \in (IF mode = "codegen" /\ hit THEN Holds ELSE {FALSE})
@@ -201,7 +209,7 @@ Spec == Init /\ [][Next]_vars
 -----------------------------------------------------------------------------
 (* The property, stated without reference to how load_model decides *)
 
-AbstractModels == [src : [Files -> 0..K], simp : BOOLEAN, ev : BOOLEAN, by : Versions]
+AbstractModels == [src : [Files -> 0..K], simp : BOOLEAN, ev : BOOLEAN, eve : {"none", "a", "b"}, by : Versions]
 Opt1(s, T) == s = <<>> \/ (Len(s) = 1 /\ s[1] \in T)
 TypeOK ==
     /\ files \in [Files -> [c : 0..K, mt : 0..MaxClock]]
@@ -213,6 +221,9 @@ TypeOK ==
 
 (* C20 itself: every transfer returns the compile of the current sources under the current options *)
 ResultIsFresh == last.act = "transfer" => last.ret = last.fresh
+(* the same as an action property: with a VIEW that hides `last`, TLC evaluates a state invariant only on the
+   first representative of a view class, but an action property on every transition it generates *)
+ResultIsFreshAct == [][last'.act = "transfer" => last'.ret = last'.fresh]_vars
 
 (* the state invariant behind it: whenever load_model WOULD accept the cache (for any option set and
    mode a caller could use now), what it would hand out is the fresh compile *)
